@@ -81,6 +81,26 @@ pub fn roundtrip_ex(lang_code: &str, words: &[String], digits: &str, value: f64,
             }
         }
     }
+    // the same words as a caller-built token stream in which every hyphen is its own "-" token
+    // (the scanner documents bare hyphens as transparent, like whitespace)
+    if words.iter().any(|w| w.contains('-')) {
+        let mut stream: Vec<Tk> = vec![];
+        for (i, w) in words.iter().enumerate() {
+            if i > 0 {
+                stream.push(Tk::new(stream.len(), " "));
+            }
+            for (j, part) in w.split('-').enumerate() {
+                if j > 0 {
+                    stream.push(Tk::new(stream.len(), "-"));
+                }
+                stream.push(Tk::new(stream.len(), part));
+            }
+        }
+        let so = occs(text2num::find_numbers(stream.iter(), lg, 0.0));
+        if !(so.len() == 1 && so[0].start == 0 && so[0].end == stream.len() && so[0].text == digits && so[0].ord == ord) {
+            return Err(format!("token stream {:?} (hyphens as separate tokens): occurrences {:?}, expected one occurrence {:?} over the whole stream", stream.iter().map(|t| t.text.as_str()).collect::<Vec<_>>(), so, digits));
+        }
+    }
     if oc.text != digits || oc.ord != ord || oc.value().to_bits() != value.to_bits() {
         return Err(format!("{:?}: occurrence {:?} (value {}), expected text {:?} value {} is_ordinal={}", text, oc, oc.value(), digits, value, ord));
     }
